@@ -112,6 +112,10 @@ def invariance_case(case):
     if exact_family:
         same_len = len(base) == len(other)
         thr = (16 if fam != "implicit-fixed" else 1e4) * e * max(1.0, float(np.abs(yb).max())) * len(base)
+        if fam == "implicit-fixed":
+            # the stage equations are solved to a tolerance, so two runs agree to the noise level of the nonlinear solver, far below the
+            # tolerance itself (observed: 1e-13 in float64 via MINPACK, 2e-11 in longdouble via the built-in solver; a real dependence on t is >= 1e-2)
+            thr = max(thr, 1e-2 * tol * max(1.0, float(np.abs(yb).max())))
         err = float(np.abs(yb - yo).max()) if same_len else float("inf")
     else:
         thr = 200 * tol * max(1.0, float(np.abs(yb).max()))
